@@ -398,12 +398,19 @@ func (b *Bucket) MoveBucket(key []byte, dstBucket *Bucket) (err error) {
 	}
 
 	// remove the sub-bucket from the source bucket
+	child := b.buckets[string(newKey)]
 	delete(b.buckets, string(newKey))
 	c.node().del(newKey)
 
 	// add te sub-bucket to the destination bucket
 	newValue := cloneBytes(v)
 	curDst.node().put(newKey, newKey, newValue, 0, common.BucketLeafFlag)
+
+	// Carry over the cached sub-bucket, if any, so that changes made to it
+	// earlier in this transaction are spilled under its new parent.
+	if child != nil && dstBucket.buckets != nil {
+		dstBucket.buckets[string(newKey)] = child
+	}
 
 	return nil
 }
